@@ -97,6 +97,7 @@ class Atoms:
             self.facts.append(z3.Implies(arg < 0, v < 1))
             self.facts.append(z3.Implies(arg == 0, v == 1))
             self._relate_exp(v, arg, ctx)
+            self._relate_exp_sum(v, arg, ctx)
         elif kind == 'log':
             self._relate_congruent(v, kind, arg, ctx)
             self.facts.append(z3.Implies(arg > 1, v > 0))
@@ -107,6 +108,43 @@ class Atoms:
             self.facts.append(v * v == arg)
             self.facts.append(z3.Implies(arg > 0, v > 0))
         return v
+
+    def _relate_exp_sum(self, v, arg, ctx):
+        """exp(a + b) = exp(a) exp(b) between existing atoms (numeric probing,
+        then solver confirmation)"""
+        from . import terms
+        import random
+        exps = [(w, self.info[str(w)][1]) for (k, _), w in self.table.items()
+                if k == 'exp']
+        if len(exps) < 3 or len(exps) > 12:
+            return
+        pc = list(ctx.pc) if ctx is not None else []
+        rnd = random.Random(777)
+        cs = set()
+        for w, a in exps:
+            cs |= self._deep_consts(a)
+        vals = []
+        try:
+            for _ in range(2):
+                env = {c: rnd.uniform(0.5, 2.0) for c in cs}
+                vals.append([terms.numeval(a, env, self) for _, a in exps])
+        except terms.NumEvalError:
+            return
+        n = len(exps)
+        new = n - 1 if exps[-1][0] is v else [i for i, e in enumerate(exps)
+                                               if e[0] is v][0]
+        for i in range(n):
+            for j in range(i, n):
+                for k in range(n):
+                    if k in (i, j) or new not in (i, j, k):
+                        continue
+                    if all(abs(vv[i] + vv[j] - vv[k]) < 1e-9 * max(
+                            1.0, abs(vv[k])) for vv in vals):
+                        r, _ = check_sat(pc + [exps[i][1] + exps[j][1] !=
+                                               exps[k][1]], timeout_ms=2000)
+                        if r == 'unsat':
+                            self.facts.append(
+                                exps[i][0] * exps[j][0] == exps[k][0])
 
     def _deep_consts(self, t):
         """free non-atom constants of t, looking through atom arguments"""
